@@ -79,20 +79,49 @@ def run(ctx):
     audit.audit_bodies(rep, 'R10.a', sorted(bodies, key=lambda b: b.id), audited, list_all=ctx.get('list'))
     rep.floor('R10.a', 60)
     recursion_budget(rep, prog)
-    # R10.e: who may call the precondition-carrying fast path
-    callers = set()
-    for b in prog.bodies.values():
-        if b.crate == 'pilota':
-            for cs in b.calls():
-                if cs.callee.endswith('prost::encoding::decode_varint_slice'):
-                    callers.add(b.key)
-    key = 'R10.e|callers of decode_varint_slice'
-    if callers == {'prost::encoding::decode_varint'}:
-        rep.ok('R10.e', key, 'only decode_varint calls decode_varint_slice')
-    elif not callers:
-        rep.anchor_missing('R10.e', 'call to decode_varint_slice')
-    else:
-        rep.bad('R10.e', key, '', 'decode_varint_slice (asserting preconditions) is called from %s; only decode_varint establishes them' % sorted(callers))
+    # R10.e: the unrolled fast path reads its slice with get_unchecked; every call of it is reached only through
+    # `len > 10` or `bytes[len - 1] < 0x80` (one complete varint lies inside the slice). Functions are found by what they
+    # do, not by name.
+    fast = [b for b in prog.bodies.values() if b.crate == 'pilota' and b.key.startswith('prost::') and b.kind in ('Fn', 'AssocFn') and any(cs.name == 'get_unchecked' for cs in b.calls())]
+    if not fast:
+        rep.anchor_missing('R10.e', 'protobuf varint fast path (a function reading its slice with get_unchecked)')
+    for f in fast:
+        sites = [(b, cs) for b in prog.bodies.values() if b.crate == 'pilota' for cs in b.calls() if cs.callee == f.key]
+        key = 'R10.e|callers of the unchecked varint fast path'
+        if not sites:
+            rep.anchor_missing('R10.e', 'call of %s' % f.key)
+            continue
+        bad = []
+        for b, cs in sites:
+            # remove the establishing edges; the call must become unreachable
+            cut = set()
+            for bi, bb in enumerate(b.bbs):
+                t = bb['t']
+                if t['k'] != 'switch':
+                    continue
+                c = b.expr_op(t['o'])
+                truth_edges = [tb for v, tb in t['vals'] if int(v) != 0] if c[0] == 'bin' else []
+                else_true = c[0] == 'bin' and all(int(v) == 0 for v, _ in t['vals'])
+                if c[0] == 'bin' and ((c[1] == 'Gt' and c[3] == ('const', 10)) or (c[1] == 'Ge' and c[3] == ('const', 11)) or (c[1] == 'Lt' and c[3] == ('const', 128)) or (c[1] == 'Le' and c[3] == ('const', 127))):
+                    for tb in truth_edges:
+                        cut.add((bi, tb))
+                    if else_true:
+                        cut.add((bi, t['else']))
+            succ = b.cfg[0]
+            seen, st = {0}, [0]
+            while st:
+                x = st.pop()
+                for y in succ[x]:
+                    if (x, y) in cut or y in seen:
+                        continue
+                    seen.add(y)
+                    st.append(y)
+            if cs.bb in seen or not cut:
+                bad.append('%s (%s)' % (b.key, cs.loc()))
+        if not bad:
+            rep.ok('R10.e', key, '%d call(s), each reached only through `len > 10` or `last byte < 0x80`' % len(sites), sites[0][1].loc())
+        else:
+            rep.bad('R10.e', key, sites[0][1].loc(), '%s reads its slice with get_unchecked and asserts that a complete varint lies inside it; the call in %s can be reached without `len > 10 || bytes[len - 1] < 0x80` having been established' % (f.key, bad))
     import gen_thrift
     gprog, g, files = gen_thrift.load()
     gb = [b for b in gprog.bodies.values() if b.crate == 'vgen' and (re.search(r'prost::Message>::(merge_field|clear)', b.key) or (b.name == 'merge' and b.kind == 'AssocFn' and not b.impl_trait and 'n_p_' in b.key))]
